@@ -47,6 +47,12 @@ func c10Trees(thorough bool) []val.V {
 		reps := []val.V{val.S(""), val.N("1.50"), val.V{T: "B", B: []byte{}}, val.Bool(false), val.Null(), val.SS("x"), val.NS("1"), val.BS([]byte{1}),
 			val.L(), val.M(), val.L(val.S("")), val.M("k1", val.Null()), val.L(val.L()), val.M("k1", val.M()), val.L(val.V{T: "B", B: []byte{}}, val.Bool(false)), val.M("k1", val.L(), "k2", val.N("-0"))}
 		trees = append(trees, containersOver(reps)...)
+		// depth 3 over every leaf and every fifth depth-2 container
+		kids := append([]val.V{}, leaves...)
+		for i := 0; i < len(d2); i += 5 {
+			kids = append(kids, d2[i])
+		}
+		trees = append(trees, containersOver(kids)...)
 		// depth 4 spine
 		deep := val.S("bottom")
 		for i := 0; i < 4; i++ {
